@@ -48,7 +48,8 @@ RULE = ("histories of add_edge / add_edges_from (1-3 elements, also self-conflic
         "changed the graph. Entry points: add_edge / add_edges_from also with keyword attributes, MixedEdgeGraph.update(edges=list|"
         "tuple|one-shot iterator|dict-keys, nodes=..., edge_type=...) = guarded bulk add, update(nodes=...) = no edge change, "
         "update(edges=<networkx graph>) as last op: accepted = raises with unchanged edge sets or the guarded insertion, never a "
-        "contradictory graph; a stream with identity-hashed label objects. Alias stream: two objects built from the SAME constructor argument objects (networkx graph per layer / "
+        "contradictory graph, and after any raise the FULL snapshot (node set included) equals the pre-state; a stream with "
+        "identity-hashed label objects. Alias stream: two objects built from the SAME constructor argument objects (networkx graph per layer / "
         "dict-of-dicts / edge lists), ops on either, both objects and the argument objects observed after every op; bulk list "
         "arguments snapshotted; explicitly empty and duplicate-element batches. Plus the generated-table case: 640+640 guard cells, 4x128 orient cells, 80 lagged-pair orient cells "
         "(both argument orders w.r.t. time), 5x64 mec cells.")
@@ -723,9 +724,9 @@ def compare(case, impl, model, ignore_inv=False):
             return "invariant-broken"
         # (classification only) once a contradictory state exists, a raise half-way through orient_uncertain_edge is a
         # consequence of it; the as-is model must still reproduce the resulting edge sets exactly
-        # update() adds the nodes before it validates the edges: for these entry points "unchanged" is judged on the edge sets
-        if a["raised"] and not a.get("atomic", True) and not (ignore_inv and broken) and o[0] not in UPD_OPS:
-            return "raise-not-atomic"
+        # every entry point, update() included: a raise must leave the FULL snapshot (nodes, every layer, attributes) as it was
+        if a["raised"] and not a.get("atomic", True) and not (ignore_inv and broken):
+            return "update-raise-not-atomic" if o[0] in UPD_OPS else "raise-not-atomic"
         broken = broken or not a["inv"]
         if o[0] == OP_UPD_GRAPH and a["raised"]:
             # accepted outcome 1: raises (on HEAD: the Graph-like branch is unsupported) and leaves every edge set as it was
